@@ -186,10 +186,10 @@ fn lat(sel: u32, i: u32) -> usize {
 
 fn user_entity(mask: u64, shift: u32, id_len: usize, text_len: usize, fill: u64) -> wa::PublicKeyCredentialUserEntity {
     wa::PublicKeyCredentialUserEntity {
-        id: hbytes::<64>(fill, 40, id_len),
-        icon: if mask >> shift & 1 != 0 { Some(hstring::<128>(fill, 41, text_len * 2)) } else { None },
-        name: if mask >> (shift + 1) & 1 != 0 { Some(hstring::<64>(fill, 42, text_len)) } else { None },
-        display_name: if mask >> (shift + 2) & 1 != 0 { Some(hstring::<64>(fill, 43, text_len)) } else { None },
+        id: hbytes(fill, 40, id_len),
+        icon: if mask >> shift & 1 != 0 { Some(hstring(fill, 41, text_len * 2)) } else { None },
+        name: if mask >> (shift + 1) & 1 != 0 { Some(hstring(fill, 42, text_len)) } else { None },
+        display_name: if mask >> (shift + 2) & 1 != 0 { Some(hstring(fill, 43, text_len)) } else { None },
     }
 }
 
@@ -197,11 +197,11 @@ fn att_stmt(kind: u64, sig_len: usize, cert_len: usize, fill: u64) -> Option<cta
     match kind & 3 {
         0 => None,
         1 => Some(ctap2::AttestationStatement::None(ctap2::NoneAttestationStatement {})),
-        2 => Some(ctap2::AttestationStatement::Packed(ctap2::PackedAttestationStatement { alg: -7, sig: hbytes::<77>(fill, 50, sig_len), x5c: None })),
+        2 => Some(ctap2::AttestationStatement::Packed(ctap2::PackedAttestationStatement { alg: -7, sig: hbytes(fill, 50, sig_len), x5c: None })),
         _ => {
-            let mut v: HVec<Bytes<1024>, 1> = HVec::new();
-            v.push(hbytes::<1024>(fill, 51, cert_len)).ok();
-            Some(ctap2::AttestationStatement::Packed(ctap2::PackedAttestationStatement { alg: -8, sig: hbytes::<77>(fill, 50, sig_len), x5c: Some(v) }))
+            let mut v = HVec::new();
+            v.push(hbytes(fill, 51, cert_len)).ok();
+            Some(ctap2::AttestationStatement::Packed(ctap2::PackedAttestationStatement { alg: -8, sig: hbytes(fill, 50, sig_len), x5c: Some(v) }))
         }
     }
 }
@@ -239,7 +239,7 @@ pub fn build(spec: &RespSpec) -> Response {
             for i in 0..(p[0] % 5) as usize {
                 versions.push(all[(i + p[1] as usize) % 4]).ok();
             }
-            let mut r = ResponseBuilder { versions, aaguid: hbytes::<16>(f, 1, (p[3] % 17) as usize) }.build();
+            let mut r = ResponseBuilder { versions, aaguid: hbytes(f, 1, (p[3] % 17) as usize) }.build();
             let mut b = 0u32;
             let mut next = || {
                 let v = bit(b);
@@ -380,7 +380,7 @@ pub fn build(spec: &RespSpec) -> Response {
             use ctap2::make_credential::*;
             let mut r = ResponseBuilder {
                 fmt: if bit(5) { ctap2::AttestationStatementFormat::Packed } else { ctap2::AttestationStatementFormat::None },
-                auth_data: hbytes::<676>(f, 2, p[0] as usize),
+                auth_data: hbytes(f, 2, p[0] as usize),
             }
             .build();
             r.att_stmt = att_stmt(m & 3, p[1] as usize, p[2] as usize, f);
@@ -395,9 +395,9 @@ pub fn build(spec: &RespSpec) -> Response {
         2 | 3 => {
             use ctap2::get_assertion::*;
             let mut r = ResponseBuilder {
-                credential: wa::PublicKeyCredentialDescriptor { id: hbytes::<255>(f, 4, p[0] as usize), key_type: hstring::<32>(f, 5, if bit(11) { 32 } else { 10 }) },
-                auth_data: hbytes::<676>(f, 6, p[1] as usize),
-                signature: hbytes::<77>(f, 7, p[2] as usize),
+                credential: wa::PublicKeyCredentialDescriptor { id: hbytes(f, 4, p[0] as usize), key_type: hstring(f, 5, if bit(11) { 32 } else { 10 }) },
+                auth_data: hbytes(f, 6, p[1] as usize),
+                signature: hbytes(f, 7, p[2] as usize),
             }
             .build();
             if bit(0) {
@@ -428,10 +428,10 @@ pub fn build(spec: &RespSpec) -> Response {
         4 => {
             let mut r = ctap2::client_pin::Response::default();
             if bit(0) {
-                r.key_agreement = Some(cosey::EcdhEsHkdf256PublicKey { x: hbytes::<32>(f, 9, (p[2] % 33) as usize), y: hbytes::<32>(f, 10, (p[3] % 33) as usize) });
+                r.key_agreement = Some(cosey::EcdhEsHkdf256PublicKey { x: hbytes(f, 9, (p[2] % 33) as usize), y: hbytes(f, 10, (p[3] % 33) as usize) });
             }
             if bit(1) {
-                r.pin_token = Some(hbytes::<48>(f, 11, (p[0] % 49) as usize));
+                r.pin_token = Some(hbytes(f, 11, (p[0] % 49) as usize));
             }
             if bit(2) {
                 r.retries = Some(p[1] as u8);
@@ -454,8 +454,8 @@ pub fn build(spec: &RespSpec) -> Response {
             }
             if bit(2) {
                 r.rp = Some(wa::PublicKeyCredentialRpEntity {
-                    id: hstring::<256>(f, 12, (p[1] % 257) as usize),
-                    name: if bit(12) { Some(hstring::<64>(f, 13, (p[2] % 65) as usize)) } else { None },
+                    id: hstring(f, 12, (p[1] % 257) as usize),
+                    name: if bit(12) { Some(hstring(f, 13, (p[2] % 65) as usize)) } else { None },
                     icon: if bit(13) { Some(wa::Icon) } else { None },
                 });
             }
@@ -469,11 +469,11 @@ pub fn build(spec: &RespSpec) -> Response {
                 r.user = Some(user_entity(m, 14, (p[2] % 65) as usize, (p[2] % 65) as usize, f));
             }
             if bit(6) {
-                r.credential_id = Some(wa::PublicKeyCredentialDescriptor { id: hbytes::<255>(f, 15, (p[3] % 256) as usize), key_type: hstring::<32>(f, 16, 10) });
+                r.credential_id = Some(wa::PublicKeyCredentialDescriptor { id: hbytes(f, 15, (p[3] % 256) as usize), key_type: hstring(f, 16, 10) });
             }
             if bit(7) {
-                let x = hbytes::<32>(f, 17, (p[5] % 33) as usize);
-                let y = hbytes::<32>(f, 18, (p[5] / 64 % 33) as usize);
+                let x = hbytes(f, 17, (p[5] % 33) as usize);
+                let y = hbytes(f, 18, (p[5] / 64 % 33) as usize);
                 r.public_key = Some(match p[0] % 4 {
                     0 => cosey::PublicKey::P256Key(cosey::P256PublicKey { x, y }),
                     1 => cosey::PublicKey::EcdhEsHkdf256Key(cosey::EcdhEsHkdf256PublicKey { x, y }),
@@ -507,6 +507,76 @@ pub fn build(spec: &RespSpec) -> Response {
         7 => Response::Reset,
         8 => Response::Selection,
         _ => Response::Vendor,
+    }
+}
+
+/// How many members the authenticator set in this response value (required ones included): the
+/// body that "the whole CBOR body" refers to is a map with exactly that many entries.
+pub fn member_count(r: &Response) -> usize {
+    let c = |b: bool| b as usize;
+    match r {
+        Response::GetInfo(x) => {
+            #[allow(unused_mut)]
+            let mut n = 2
+                + c(x.extensions.is_some())
+                + c(x.options.is_some())
+                + c(x.max_msg_size.is_some())
+                + c(x.pin_protocols.is_some())
+                + c(x.max_creds_in_list.is_some())
+                + c(x.max_cred_id_length.is_some())
+                + c(x.transports.is_some())
+                + c(x.algorithms.is_some())
+                + c(x.max_serialized_large_blob_array.is_some());
+            #[cfg(feature = "get-info-full")]
+            {
+                n += c(x.force_pin_change.is_some())
+                    + c(x.min_pin_length.is_some())
+                    + c(x.firmware_version.is_some())
+                    + c(x.max_cred_blob_length.is_some())
+                    + c(x.max_rpids_for_set_min_pin_length.is_some())
+                    + c(x.preferred_platform_uv_attempts.is_some())
+                    + c(x.uv_modality.is_some())
+                    + c(x.certifications.is_some())
+                    + c(x.remaining_discoverable_credentials.is_some())
+                    + c(x.vendor_prototype_config_commands.is_some())
+                    + c(x.attestation_formats.is_some())
+                    + c(x.uv_count_since_last_pin_entry.is_some())
+                    + c(x.long_touch_for_reset.is_some());
+            }
+            n
+        }
+        Response::MakeCredential(x) => 2 + c(x.att_stmt.is_some()) + c(x.ep_att.is_some()) + c(x.large_blob_key.is_some()) + c(x.unsigned_extension_outputs.is_some()),
+        Response::GetAssertion(x) | Response::GetNextAssertion(x) => {
+            3 + c(x.user.is_some())
+                + c(x.number_of_credentials.is_some())
+                + c(x.user_selected.is_some())
+                + c(x.large_blob_key.is_some())
+                + c(x.unsigned_extension_outputs.is_some())
+                + c(x.ep_att.is_some())
+                + c(x.att_stmt.is_some())
+        }
+        Response::ClientPin(x) => c(x.key_agreement.is_some()) + c(x.pin_token.is_some()) + c(x.retries.is_some()) + c(x.power_cycle_state.is_some()) + c(x.uv_retries.is_some()),
+        Response::CredentialManagement(x) => {
+            #[allow(unused_mut)]
+            let mut n = c(x.existing_resident_credentials_count.is_some())
+                + c(x.max_possible_remaining_residential_credentials_count.is_some())
+                + c(x.rp.is_some())
+                + c(x.rp_id_hash.is_some())
+                + c(x.total_rps.is_some())
+                + c(x.user.is_some())
+                + c(x.credential_id.is_some())
+                + c(x.public_key.is_some())
+                + c(x.total_credentials.is_some())
+                + c(x.cred_protect.is_some())
+                + c(x.large_blob_key.is_some());
+            #[cfg(feature = "third-party-payment")]
+            {
+                n += c(x.third_party_payment.is_some());
+            }
+            n
+        }
+        Response::LargeBlobs(x) => c(x.config.is_some()),
+        _ => 0,
     }
 }
 
@@ -553,6 +623,26 @@ pub fn exec(dev: &mut Device, x: &RespondSpec, log: &mut Log) -> Option<Finding>
     if reference.first() != Some(&0x00) {
         log.event(&format!("respond ref len={} status={:02x?}", reference.len(), reference.first()));
         return finding("reference_status", format!("in a {}-byte buffer the message starts with {:02x?} instead of status 0x00 ({} bytes)", REF_CAP, reference.first(), reference.len()));
+    }
+    // "the whole CBOR body": a map with one entry per member the authenticator set (which keys and values
+    // they carry is C02's business; that none is missing, and that there is a body at all, is this one's)
+    let members = member_count(&resp);
+    let entries = if reference.len() > 1 {
+        match cbor::decode_one(&reference[1..]) {
+            Ok((cbor::V::M(m), _)) => Some(m.len()),
+            _ => None,
+        }
+    } else {
+        Some(0)
+    };
+    if let Some(n) = entries {
+        if n != members {
+            log.event(&format!("respond ref len={} entries={} members={}", reference.len(), n, members));
+            return finding(
+                "incomplete_body",
+                format!("the response has {} members set but the body written into a {}-byte buffer has {} entries ({} bytes: {})", members, REF_CAP, n, reference.len(), json::hex(&reference[..reference.len().min(32)])),
+            );
+        }
     }
     if reference.len() > 1 {
         if let Err(e) = cbor::decode_one(&reference[1..]) {
